@@ -17,7 +17,7 @@ from simkit.threads import BatonScheduler
 
 ID = "C12"
 LEVEL = "exploration"
-RUNS = {"quick": 2400, "thorough": 60000}
+RUNS = {"quick": 8000, "thorough": 120000}
 CHUNK = 40
 RULE = ("2-4 independent workloads (serialize / parse, either integration, sometimes sharing one SerializerOptions "
         "object) are run alone (baseline), then (coop) with their generator steps interleaved by the tape plus "
